@@ -494,7 +494,9 @@ def main():
             ml = build.schema_lib(text, 'plain', tools=False)
         except build.GenError as e:
             chk.outcome('does-not-build')
-            chk.violation('%s/does-not-build/multi-schema-file/%s' % (PID, e.stage), 'generated code of the multi-schema file %s does not build (%s): %s' % (name, e.stage, e.out[-300:].decode('latin1')), {'family': name, 'schema': text[:4000]})
+            # a schema that the generator writes in several passes (<Schema>_1.h, _2.h: its declarations wait for another schema of the file) is a case of its own
+            mp = '/multi-pass-suffix-files' if re.search(r'Sdai\w+_\d+(Names)?\.(h|cc)', e.out.decode('latin1')) else ''
+            chk.violation('%s/does-not-build/multi-schema-file/%s%s' % (PID, e.stage, mp), 'generated code of the multi-schema file %s does not build (%s): %s' % (name, e.stage, e.out[-300:].decode('latin1')), {'family': name, 'schema': text[:4000]})
             continue
         want = sorted(set(x.lower() for x in re.findall(r'(?im)^\s*ENTITY\s+([A-Za-z][A-Za-z0-9_]*)', text)))
         try:
